@@ -388,6 +388,7 @@ type SolveResult struct {
 	Secs   float64
 	Model  string
 	Raw    string
+	Agree  int // thorough tier: number of back ends that gave this answer
 }
 
 var solverSem = make(chan struct{}, 14)
@@ -409,6 +410,9 @@ var outDir = "/verif/out"
 
 // repoRoot and outRoot can be redirected (GOVC_REPO, GOVC_OUT) by the seeded-change tooling, which runs the checks
 // against scratch worktrees; the registered commands never set them.
+// crossCheck (thorough tier): all back ends start at once and answers arriving within 8 s of the first are compared
+var crossCheck bool
+
 var repoRoot, outRoot = envOr("GOVC_REPO", "/repo"), envOr("GOVC_OUT", "/verif/out")
 
 func envOr(k, d string) string {
@@ -452,7 +456,7 @@ func Solve(name string, script string, timeoutS int, wantModel bool) SolveResult
 		wg.Add(1)
 		go func() {
 			defer wg.Done()
-			if si > 0 {
+			if si > 0 && !crossCheck {
 				// staged race: the other solvers start only if the first has not answered quickly
 				select {
 				case <-ctx.Done():
@@ -512,10 +516,45 @@ func Solve(name string, script string, timeoutS int, wantModel bool) SolveResult
 	var best SolveResult
 	best.Status = "unknown"
 	var errs []string
-	for r := range ch {
+	var first *SolveResult
+	var deadline <-chan time.Time
+	for {
+		var r SolveResult
+		var ok bool
+		if first != nil {
+			select {
+			case r, ok = <-ch:
+			case <-deadline:
+				cancel()
+				return *first
+			}
+		} else {
+			r, ok = <-ch
+		}
+		if !ok {
+			break
+		}
+		if first != nil {
+			// thorough tier: a second back end that answers within the grace period is recorded
+			if r.Status == first.Status {
+				first.Solver += "+" + r.Solver
+				first.Agree++
+			} else if r.Status == "sat" || r.Status == "unsat" {
+				cancel()
+				return SolveResult{Solver: first.Solver + "!" + r.Solver, Status: "error", Raw: "back ends disagree: " + first.Solver + " says " + first.Status + ", " + r.Solver + " says " + r.Status}
+			}
+			continue
+		}
 		if r.Status == "unsat" || r.Status == "sat" {
-			cancel()
-			return r
+			if !crossCheck {
+				cancel()
+				return r
+			}
+			rc := r
+			rc.Agree = 1
+			first = &rc
+			deadline = time.After(8 * time.Second)
+			continue
 		}
 		if r.Status == "error" {
 			errs = append(errs, r.Solver+": "+firstLines(r.Raw, 3))
@@ -523,6 +562,10 @@ func Solve(name string, script string, timeoutS int, wantModel bool) SolveResult
 		if r.Status == "timeout" {
 			best.Status = "timeout"
 		}
+	}
+	if first != nil {
+		cancel()
+		return *first
 	}
 	if len(errs) == len(solvers) {
 		best.Status = "error"
